@@ -20,6 +20,118 @@ Arguments N.min : simpl never.
 Arguments N.of_nat : simpl never.
 Arguments N.to_nat : simpl never.
 
+(** * Fragments dropped by the sequencing rules
+
+    [read_record_loop_x] counts, besides the fragments with a wrong checksum, the fragments the
+    sequencing rules throw away: a Full or First fragment that arrives inside a fragmented record
+    (the partial record is cut short), a Middle or Last fragment that arrives outside one (orphan). *)
+
+(** is the fragment of type [t] arriving in state [i] (inside a fragmented record?) a drop *)
+Definition drop1 (i : bool) (t : N) : N :=
+  if (t =? 0) || (t =? 1) then (if i then 1 else 0) else (if i then 0 else 1).
+
+(** the sequencing state after a fragment (does not depend on the buffer) *)
+Definition fstate (i : bool) (t : N) (d : bytes) : bool := snd (fst (fstep i [] t d)).
+
+(** the drops of a whole fragment sequence *)
+Fixpoint drops (i : bool) (its : list item) : N :=
+  match its with
+  | [] => 0
+  | It n t d :: r => drop1 i t + drops (fstate i t d) r
+  end.
+
+(** the drops among the fragments consumed up to and including the one that completes the first
+    record (all of them when no record is completed): the companion of [next] *)
+Fixpoint ndrops (i : bool) (its : list item) : N :=
+  match its with
+  | [] => 0
+  | It n t d :: r =>
+      match fstep i [] t d with
+      | (Some _, _, _) => drop1 i t
+      | (None, i', _) => drop1 i t + ndrops i' r
+      end
+  end.
+
+Ltac type_cases t :=
+  destruct (t =? 0) eqn:?E0; destruct (t =? 1) eqn:?E1; destruct (t =? 2) eqn:?E2;
+  destruct (t =? 3) eqn:?E3; try (exfalso; lia).
+
+Lemma fstate_fstep i b t d : snd (fst (fstep i b t d)) = fstate i t d.
+Proof.
+  unfold fstate, fstep.
+  destruct (t =? 0); [reflexivity|]. destruct (t =? 1); [reflexivity|].
+  destruct (t =? 2); destruct i; reflexivity.
+Qed.
+
+Lemma fin_state_indep its : forall i b b', fst (fin i b its) = fst (fin i b' its).
+Proof.
+  induction its as [|[n t d] its IH]; intros i b b'; cbn [fin fst]; [reflexivity|].
+  pose proof (fstate_fstep i b t d) as E1. pose proof (fstate_fstep i b' t d) as E2.
+  destruct (fstep i b t d) as [[o1 i1] b1]. destruct (fstep i b' t d) as [[o2 i2] b2].
+  cbn [fst snd] in E1, E2. subst i1 i2. apply IH.
+Qed.
+
+Lemma fin_app x : forall i b y,
+  fin i b (x ++ y) = fin (fst (fin i b x)) (snd (fin i b x)) y.
+Proof.
+  induction x as [|[n t d] x IH]; intros i b y; cbn [fin app fst snd]; [reflexivity|].
+  destruct (fstep i b t d) as [[o1 i1] b1]. apply IH.
+Qed.
+
+Lemma drops_app x : forall i b y,
+  drops i (x ++ y) = drops i x + drops (fst (fin i b x)) y.
+Proof.
+  induction x as [|[n t d] x IH]; intros i b y; cbn [drops fin app fst].
+  - lia.
+  - pose proof (fstate_fstep i b t d) as E1.
+    destruct (fstep i b t d) as [[o1 i1] b1]. cbn [fst snd] in E1. subst i1.
+    rewrite (IH _ b1). lia.
+Qed.
+
+Lemma drops_prefix x y i : drops i (x ++ y) = 0 -> drops i x = 0.
+Proof. rewrite (drops_app x i []). lia. Qed.
+
+Section DROPS_NEXT.
+Variable H : N.
+
+(** [drops] splits along [next] the way [asm] does ([asm_next]) *)
+Lemma drops_next its : forall pos i b,
+  drops i its =
+  match next H pos i b its with
+  | None => ndrops i its
+  | Some (_, _, r) => ndrops i its + drops false r
+  end.
+Proof.
+  induction its as [|[n t d] its IH]; intros pos i b; cbn [drops ndrops next]; [reflexivity|].
+  unfold fstate, fstep.
+  destruct (t =? 0); cbn [fst snd]; [reflexivity|].
+  destruct (t =? 1); cbn [fst snd].
+  { rewrite (IH (pos + isize H (It n t d)) true d).
+    destruct (next H (pos + isize H (It n t d)) true d its) as [[[x e] r]|]; lia. }
+  destruct (t =? 2); destruct i; cbn [fst snd]; try reflexivity.
+  - rewrite (IH (pos + isize H (It n t d)) true (b ++ d)).
+    destruct (next H (pos + isize H (It n t d)) true (b ++ d) its) as [[[x e] r]|]; lia.
+  - rewrite (IH (pos + isize H (It n t d)) false []).
+    destruct (next H (pos + isize H (It n t d)) false [] its) as [[[x e] r]|]; lia.
+  - rewrite (IH (pos + isize H (It n t d)) false []).
+    destruct (next H (pos + isize H (It n t d)) false [] its) as [[[x e] r]|]; lia.
+Qed.
+(** so does the final sequencing state *)
+Lemma fin_next its : forall pos i b,
+  fst (fin i b its) =
+  match next H pos i b its with
+  | None => fst (fin i b its)
+  | Some (_, _, r) => fst (fin false [] r)
+  end.
+Proof.
+  induction its as [|[n t d] its IH]; intros pos i b; cbn [fin next]; [reflexivity|].
+  unfold fstep.
+  destruct (t =? 0); [reflexivity|].
+  destruct (t =? 1); [apply IH|].
+  destruct (t =? 2); destruct i; try apply IH. reflexivity.
+Qed.
+End DROPS_NEXT.
+
 Section LOGX.
 Variable B H : N.
 Variable crc : bytes -> N.
@@ -28,7 +140,7 @@ Variable crc : bytes -> N.
 
 Lemma rrl_x_sim : forall fuel r buf infrag sk,
   match read_record_loop_x B H crc fuel r buf infrag sk with
-  | XEof _ _ => read_record_loop B H crc true fuel r buf infrag = REof
+  | XEof _ _ _ => read_record_loop B H crc true fuel r buf infrag = REof
   | XPanic => read_record_loop B H crc true fuel r buf infrag = RPanic
   | XRec d r' _ => read_record_loop B H crc true fuel r buf infrag = RRec d r'
   end.
@@ -44,7 +156,7 @@ Qed.
 
 Lemma rr_x_sim r sk :
   match read_record_x B H crc r sk with
-  | XEof _ _ => read_record B H crc true r = REof
+  | XEof _ _ _ => read_record B H crc true r = REof
   | XPanic => read_record B H crc true r = RPanic
   | XRec d r' _ => read_record B H crc true r = RRec d r'
   end.
@@ -60,7 +172,7 @@ Proof.
   induction fuel as [|fuel IH]; intros r sk; cbn [read_all_loop_x read_all_loop];
     [split; reflexivity|].
   pose proof (rr_x_sim r sk) as Hs.
-  destruct (read_record_x B H crc r sk) as [r' sk'| |d r' sk']; rewrite Hs;
+  destruct (read_record_x B H crc r sk) as [r' sk' p| |d r' sk']; rewrite Hs;
     cbn [rx_records rx_panic fst snd]; try (split; reflexivity).
   destruct (IH r' sk') as [E1 E2]. rewrite E1, E2. split; reflexivity.
 Qed.
@@ -79,34 +191,43 @@ Hypothesis crc_bound : forall d, crc d < two32.
 Local Notation a4 L := (L B H crc H_is_7 B_big B_small crc_bound) (only parsing).
 Local Notation a3 L := (L B H H_is_7 B_big B_small) (only parsing).
 
-(** * [read_all_x] on a well laid out file *)
+(** * [read_all_x] on a well laid out file: the skipped counter grows by exactly the drops *)
 
 Lemma rrl_x_correct its : forall fuel pos buf infrag junk sk,
   layout_ok B H pos its -> eof_at B H crc (pos + size H its) junk -> (length its < fuel)%nat ->
   read_record_loop_x B H crc fuel (rd B pos (bytes_of crc its ++ junk)) buf infrag sk =
   match next H pos infrag buf its with
-  | None => XEof (rd B (pos + size H its) junk) sk
-  | Some (d, e, r) => XRec d (rd B e (bytes_of crc r ++ junk)) sk
+  | None => XEof (rd B (pos + size H its) junk) (sk + ndrops infrag its) (fst (fin infrag buf its))
+  | Some (d, e, r) => XRec d (rd B e (bytes_of crc r ++ junk)) (sk + ndrops infrag its)
   end.
 Proof using H_is_7 B_big B_small crc_bound.
   induction its as [|[n t d] its IH]; intros fuel pos buf infrag junk sk Hl He Hf;
     (destruct fuel as [|fuel]; [cbn [length] in Hf; lia|]).
-  - cbn [size] in *. rewrite N.add_0_r in *. cbn [bytes_of app next read_record_loop_x].
-    unfold eof_at in He. rewrite He. reflexivity.
+  - cbn [size] in *. rewrite N.add_0_r in *. cbn [bytes_of app next ndrops fin fst read_record_loop_x].
+    unfold eof_at in He. rewrite He, N.add_0_r. reflexivity.
   - cbn [layout_ok] in Hl. destruct Hl as [Hok Hl].
     cbn [size] in *. rewrite N.add_assoc in *. cbn [length] in Hf.
-    cbn [bytes_of next read_record_loop_x]. rewrite <- app_assoc, (a4 rp_item) by assumption.
-    unfold fstep, T_FULL, T_FIRST, T_MIDDLE, T_LAST.
+    cbn [bytes_of next ndrops fin read_record_loop_x]. rewrite <- app_assoc, (a4 rp_item) by assumption.
+    unfold fstep, drop1, T_FULL, T_FIRST, T_MIDDLE, T_LAST.
     assert (Hf' : (length its < fuel)%nat) by lia.
-    destruct (t =? 0); [reflexivity|].
-    destruct (t =? 1); [apply IH; assumption|].
-    destruct (t =? 2); destruct infrag; try (apply IH; assumption). reflexivity.
+    destruct (t =? 0); cbn [orb].
+    { destruct infrag; f_equal; lia. }
+    destruct (t =? 1).
+    { rewrite IH by assumption.
+      destruct (next H (pos + isize H (It n t d)) true d its) as [[[x e] r]|];
+        destruct infrag; f_equal; lia. }
+    destruct (t =? 2); destruct infrag; try rewrite IH by assumption.
+    + destruct (next H (pos + isize H (It n t d)) true (buf ++ d) its) as [[[x e] r]|]; f_equal; lia.
+    + destruct (next H (pos + isize H (It n t d)) false [] its) as [[[x e] r]|]; f_equal; lia.
+    + f_equal. lia.
+    + destruct (next H (pos + isize H (It n t d)) false [] its) as [[[x e] r]|]; f_equal; lia.
 Qed.
 
 Lemma ral_x_correct : forall fuel its pos junk sk,
   layout_ok B H pos its -> eof_at B H crc (pos + size H its) junk -> (length its < fuel)%nat ->
   read_all_loop_x B H crc fuel (rd B pos (bytes_of crc its ++ junk)) sk
-  = mkRX (map fst (asm H pos false [] its)) false sk (blen junk =? 0).
+  = mkRX (map fst (asm H pos false [] its)) false (sk + drops false its)
+         ((blen junk =? 0) && negb (fst (fin false [] its))).
 Proof using H_is_7 B_big B_small crc_bound.
   induction fuel as [|fuel IH]; intros its pos junk sk Hl He Hf; [lia|].
   cbn [read_all_loop_x]. unfold read_record_x.
@@ -117,28 +238,30 @@ Proof using H_is_7 B_big B_small crc_bound.
     assert (E' : blen (bytes_of crc its ++ junk) = 0) by lia.
     apply blen_0_nil in E'. apply app_eq_nil in E'. destruct E' as [E1 E2].
     apply (a4 bytes_of_nil) in E1. subst its junk.
-    cbn [bytes_of app asm map rd r_cpos r_flen]. rewrite blen_nil. f_equal.
-    rewrite N.add_0_r. rewrite !N.eqb_refl. reflexivity.
+    cbn [bytes_of app asm map drops fin fst negb rd r_cpos r_flen]. rewrite blen_nil.
+    rewrite !N.add_0_r. rewrite !N.eqb_refl. reflexivity.
   - clear E. rewrite rrl_x_correct; try assumption.
     2:{ cbn [rd r_rest]. rewrite app_length.
         pose proof (a4 size_length its) as Hs. rewrite <- (a4 blen_bytes_of) in Hs.
         unfold blen in Hs. lia. }
-    rewrite asm_next.
+    rewrite asm_next, (drops_next H its pos false []), (fin_next H its pos false []).
     destruct (next H pos false [] its) as [[[d e] r]|] eqn:En.
     + destruct (a4 next_props _ _ _ _ _ _ _ Hl En) as [Hl' [Hlen Hsz]].
-      rewrite IH; [reflexivity|assumption| |lia].
-      rewrite Hsz. assumption.
-    + cbn [map rd r_cpos r_flen]. f_equal.
+      rewrite IH; [|assumption| |lia].
+      * cbn [map fst rx_records rx_panic rx_skipped rx_intact]. f_equal. lia.
+      * rewrite Hsz. assumption.
+    + cbn [map rd r_cpos r_flen]. f_equal. f_equal.
       destruct (blen junk =? 0) eqn:Ej; lia.
 Qed.
 
 Lemma read_all_x_layout : forall its junk,
   layout_ok B H 0 its -> eof_at B H crc (size H its) junk ->
   read_all_x B H crc (bytes_of crc its ++ junk)
-  = mkRX (map fst (asm H 0 false [] its)) false 0 (blen junk =? 0).
+  = mkRX (map fst (asm H 0 false [] its)) false (drops false its)
+         ((blen junk =? 0) && negb (fst (fin false [] its))).
 Proof using H_is_7 B_big B_small crc_bound.
-  intros its junk Hl He. unfold read_all_x. rewrite (a3 reader_open_rd). apply ral_x_correct.
-  - assumption.
+  intros its junk Hl He. unfold read_all_x. rewrite (a3 reader_open_rd).
+  rewrite (ral_x_correct _ its 0 junk 0); [rewrite N.add_0_l; reflexivity|assumption| |].
   - rewrite N.add_0_l. assumption.
   - rewrite app_length.
     pose proof (a4 size_length its) as Hs. rewrite <- (a4 blen_bytes_of) in Hs.
@@ -158,29 +281,76 @@ Hypothesis crc_bound : forall d, crc d < two32.
 Local Notation a4 L := (L B H crc H_is_7 B_big B_small crc_bound) (only parsing).
 Local Notation a3 L := (L B H H_is_7 B_big B_small) (only parsing).
 
+(** a file the writer has produced: besides the layout and the records, no fragment of it is
+    dropped by the sequencing rules and it does not end inside a fragmented record *)
 Definition lf (f : bytes) (recs : list bytes) (boff : N) : Prop :=
   exists its, f = bytes_of crc its /\ layout_ok B H 0 its /\
     wst B (size H its) boff /\
-    map fst (asm H 0 false [] its) = recs.
+    map fst (asm H 0 false [] its) = recs /\
+    drops false its = 0 /\ fst (fin false [] its) = false.
+
+(** the writer's fragments of one record: no drops, and the record is closed at the end *)
+Lemma append_items_drops : forall fuel boff data first,
+  drops (negb first) (append_items B H fuel boff data first) = 0.
+Proof using H_is_7 B_big B_small crc_bound.
+  induction fuel as [|fuel IH]; intros boff data first; cbn [append_items]; [reflexivity|].
+  destruct (dropN (w_n B H boff data) data) as [|x l] eqn:E.
+  - pose proof (a4 drop_nil _ _ E) as En. unfold w_item. rewrite En, N.eqb_refl.
+    destruct first; reflexivity.
+  - pose proof (a4 drop_cons _ _ _ _ E) as En. rewrite <- E in *. clear E.
+    unfold w_item at 1.
+    destruct (blen data =? w_n B H boff data) eqn:E2; [lia|].
+    cbn [drops].
+    replace (fstate (negb first) (frag_type first false) (takeN (w_n B H boff data) data))
+      with (negb false) by (destruct first; reflexivity).
+    rewrite IH. destruct first; reflexivity.
+Qed.
+
+Lemma append_items_closed : forall fuel boff data first b,
+  completes B H fuel boff data = true ->
+  fst (fin (negb first) b (append_items B H fuel boff data first)) = false.
+Proof using H_is_7 B_big B_small crc_bound.
+  induction fuel as [|fuel IH]; intros boff data first b Hc; cbn [completes] in Hc;
+    [discriminate|].
+  cbn [append_items].
+  destruct (dropN (w_n B H boff data) data) as [|x l] eqn:E.
+  - pose proof (a4 drop_nil _ _ E) as En. unfold w_item. rewrite En, N.eqb_refl.
+    destruct first; reflexivity.
+  - pose proof (a4 drop_cons _ _ _ _ E) as En. rewrite <- E in *. clear E.
+    unfold w_item at 1.
+    destruct (blen data =? w_n B H boff data) eqn:E2; [lia|].
+    cbn [fin].
+    destruct first; cbn [negb].
+    + rewrite fstep_first. apply (IH _ _ false _ Hc).
+    + rewrite fstep_middle. apply (IH _ _ false _ Hc).
+Qed.
 
 Lemma lf_nil : lf [] [] 0.
 Proof using H_is_7 B_big B_small crc_bound.
-  exists []. cbn [bytes_of layout_ok size asm map]. unfold wst.
+  exists []. cbn [bytes_of layout_ok size asm map drops fin fst]. unfold wst.
   repeat split; try reflexivity. lia.
 Qed.
 
 Lemma lf_append f recs boff r : lf f recs boff ->
   lf (f ++ fst (append B H crc boff r)) (recs ++ [r]) (snd (append B H crc boff r)).
 Proof using H_is_7 B_big B_small crc_bound.
-  intros [its [Hf [Hl [Hw Ha]]]]. unfold append. rewrite append_loop_items. cbn [fst snd].
+  intros [its [Hf [Hl [Hw [Ha [Hd Hc]]]]]]. unfold append. rewrite append_loop_items. cbn [fst snd].
   destruct (a4 append_items_layout (append_fuel r) boff r true (size H its) Hw) as [Hl2 Hw2].
+  pose proof (append_items_drops (append_fuel r) boff r true) as Hd2.
+  pose proof (fun b => append_items_closed (append_fuel r) boff r true b (a4 completes_append boff r))
+    as Hc2.
+  cbn [negb] in Hd2, Hc2.
   set (ir := append_items B H (append_fuel r) boff r true) in *.
   exists (its ++ ir). split; [rewrite bytes_of_app, Hf; reflexivity|].
   split; [apply (a3 layout_ok_app); rewrite N.add_0_l; auto|].
   split; [rewrite (a3 size_app); assumption|].
-  rewrite asm_app, map_app, Ha, N.add_0_l. unfold ir.
-  rewrite (a4 asm_complete) by (first [apply (a4 completes_append)|discriminate]).
-  reflexivity.
+  split.
+  { rewrite asm_app, map_app, Ha, N.add_0_l. unfold ir.
+    rewrite (a4 asm_complete) by (first [apply (a4 completes_append)|discriminate]).
+    reflexivity. }
+  split.
+  - rewrite (drops_app its false []), Hd, Hc, Hd2. reflexivity.
+  - rewrite fin_app, Hc. apply Hc2.
 Qed.
 
 Lemma lf_reopen f recs boff : lf f recs boff -> lf f recs (blen f mod B).
@@ -193,8 +363,8 @@ Qed.
 Lemma lf_read f recs boff : lf f recs boff ->
   read_all_x B H crc f = mkRX recs false 0 true.
 Proof using H_is_7 B_big B_small crc_bound.
-  intros [its [Hf [Hl [Hw Ha]]]]. rewrite <- (app_nil_r f), Hf.
-  rewrite (a4 read_all_x_layout); [rewrite Ha; reflexivity|assumption|].
+  intros [its [Hf [Hl [Hw [Ha [Hd Hc]]]]]]. rewrite <- (app_nil_r f), Hf.
+  rewrite (a4 read_all_x_layout); [rewrite Ha, Hd, Hc; reflexivity|assumption|].
   apply (LogProofs.eof_nil B H crc H_is_7 B_big B_small).
 Qed.
 
@@ -219,44 +389,89 @@ Proof using H_is_7 B_big B_small crc_bound.
       * rewrite (Hi eq_refl), fstep_middle. eapply IH; [|exact E]. auto.
 Qed.
 
-Lemma lf_read_torn f recs boff r t : lf f recs boff ->
-  (t < length (fst (append B H crc boff r)))%nat ->
-  exists i, read_all_x B H crc (f ++ firstn t (fst (append B H crc boff r))) = mkRX recs false 0 i.
+(** a prefix (at fragment granularity) of one record's emission has no drops *)
+Lemma drops_emission_prefix r boff i1 i2 :
+  append_items B H (append_fuel r) boff r true = i1 ++ i2 -> drops false i1 = 0.
 Proof using H_is_7 B_big B_small crc_bound.
-  intros [its [Hf [Hl [Hw Ha]]]]. unfold append. rewrite append_loop_items. cbn [fst].
+  intros E. apply (drops_prefix i1 i2). rewrite <- E.
+  apply (append_items_drops (append_fuel r) boff r true).
+Qed.
+
+(** ** a file cut inside the last record: its shape *)
+Lemma lf_torn_shape_x f recs boff r t : lf f recs boff ->
+  (t < length (fst (append B H crc boff r)))%nat ->
+  exists its' i1 junk,
+    f ++ firstn t (fst (append B H crc boff r)) = bytes_of crc its' ++ junk /\
+    layout_ok B H 0 its' /\ eof_at B H crc (size H its') junk /\
+    map fst (asm H 0 false [] its') = recs /\
+    drops false its' = 0 /\
+    (t = length (bytes_of crc i1) + length junk)%nat /\
+    exists it rr, append_items B H (append_fuel r) boff r true = i1 ++ it :: rr.
+Proof using H_is_7 B_big B_small crc_bound.
+  intros [its [Hf [Hl [Hw [Ha [Hd Hc]]]]]]. unfold append. rewrite append_loop_items. cbn [fst].
   destruct (a4 append_items_layout (append_fuel r) boff r true (size H its) Hw) as [Hl2 _].
+  pose proof (drops_emission_prefix r boff) as Hdp.
   set (ir := append_items B H (append_fuel r) boff r true) in *.
   intros Ht.
   destruct (a4 take_items ir t) as [i1 [i2 [junk [E1 [E2 [E3 E4]]]]]].
   destruct E4 as [[-> ->]|[it [rr [s [-> [E5 [E6 E7]]]]]]].
   { rewrite app_nil_r in E1. rewrite <- E1 in E3. lia. }
+  pose proof Hl2 as Hl2'.
   rewrite E1 in Hl2. apply (a3 layout_ok_app) in Hl2. destruct Hl2 as [Hl2 Hl3].
   cbn [layout_ok] in Hl3. destruct Hl3 as [Hok _].
-  exists (blen junk =? 0).
-  rewrite E2, Hf, app_assoc, <- bytes_of_app.
-  rewrite (a4 read_all_x_layout).
-  - f_equal. rewrite asm_app, map_app, Ha.
+  exists (its ++ i1), i1, junk.
+  split; [rewrite E2, Hf, app_assoc, <- bytes_of_app; reflexivity|].
+  split; [apply (a3 layout_ok_app); rewrite N.add_0_l; auto|].
+  split; [rewrite (a3 size_app); apply (a4 eof_prefix _ it junk s); assumption|].
+  split.
+  { rewrite asm_app, map_app, Ha.
     rewrite (asm_strict_prefix (append_fuel r) boff r true _ _ _ i1 it rr);
-      [apply app_nil_r|discriminate|exact E1].
-  - apply (a3 layout_ok_app). rewrite N.add_0_l. auto.
-  - rewrite (a3 size_app). apply (a4 eof_prefix _ it junk s); assumption.
+      [apply app_nil_r|discriminate|exact E1]. }
+  split.
+  { rewrite (drops_app its false []), Hd, Hc, (Hdp i1 (it :: rr) E1). reflexivity. }
+  split; [|exists it, rr; exact E1].
+  apply (f_equal (@length N)) in E2. rewrite firstn_length_le, app_length in E2 by lia. exact E2.
+Qed.
+
+Lemma lf_read_torn f recs boff r t : lf f recs boff ->
+  (t < length (fst (append B H crc boff r)))%nat ->
+  exists i, read_all_x B H crc (f ++ firstn t (fst (append B H crc boff r))) = mkRX recs false 0 i.
+Proof using H_is_7 B_big B_small crc_bound.
+  intros Hlf Ht.
+  destruct (lf_torn_shape_x f recs boff r t Hlf Ht) as [its' [i1 [junk [E [Hl [He [Ha [Hd _]]]]]]]].
+  eexists.
+  rewrite E, (a4 read_all_x_layout) by assumption. rewrite Ha, Hd. reflexivity.
+Qed.
+
+(** a prefix of a written file, cut anywhere *)
+Lemma lf_prefix_shape f recs boff n : lf f recs boff ->
+  exists i1 junk,
+    firstn n f = bytes_of crc i1 ++ junk /\ layout_ok B H 0 i1 /\
+    eof_at B H crc (size H i1) junk /\
+    map fst (asm H 0 false [] i1) = firstn (length (map fst (asm H 0 false [] i1))) recs /\
+    drops false i1 = 0.
+Proof using H_is_7 B_big B_small crc_bound.
+  intros [its [Hf [Hl [Hw [Ha [Hd Hc]]]]]]. subst f.
+  destruct (a4 take_items its n) as [i1 [i2 [junk [E1 [E2 [E3 E4]]]]]].
+  subst its. apply (a3 layout_ok_app) in Hl. destruct Hl as [Hl1 Hl2].
+  rewrite N.add_0_l in Hl2.
+  exists i1, junk. split; [exact E2|]. split; [assumption|]. split.
+  { destruct E4 as [[-> ->]|[it [r [s [-> [E5 [E6 E7]]]]]]].
+    + apply (LogProofs.eof_nil B H crc H_is_7 B_big B_small).
+    + cbn [layout_ok] in Hl2. destruct Hl2 as [Hok _].
+      apply (a4 eof_prefix _ it junk s); assumption. }
+  split.
+  - rewrite <- Ha, asm_app, map_app. symmetry. apply firstn_app_exact.
+  - apply (drops_prefix i1 i2). exact Hd.
 Qed.
 
 Lemma lf_prefix f recs boff n : lf f recs boff ->
   exists k i, read_all_x B H crc (firstn n f) = mkRX (firstn k recs) false 0 i.
 Proof using H_is_7 B_big B_small crc_bound.
-  intros [its [Hf [Hl [Hw Ha]]]]. subst f.
-  destruct (a4 take_items its n) as [i1 [i2 [junk [E1 [E2 [E3 E4]]]]]].
-  rewrite E2. subst its. apply (a3 layout_ok_app) in Hl. destruct Hl as [Hl1 Hl2].
-  rewrite N.add_0_l in Hl2.
-  exists (length (map fst (asm H 0 false [] i1))), (blen junk =? 0).
-  rewrite (a4 read_all_x_layout).
-  - f_equal. rewrite <- Ha, asm_app, map_app. symmetry. apply firstn_app_exact.
-  - assumption.
-  - destruct E4 as [[-> ->]|[it [r [s [-> [E5 [E6 E7]]]]]]].
-    + apply (LogProofs.eof_nil B H crc H_is_7 B_big B_small).
-    + cbn [layout_ok] in Hl2. destruct Hl2 as [Hok _].
-      apply (a4 eof_prefix _ it junk s); assumption.
+  intros Hlf.
+  destruct (lf_prefix_shape f recs boff n Hlf) as [i1 [junk [E [Hl [He [Ha Hd]]]]]].
+  exists (length (map fst (asm H 0 false [] i1))). eexists.
+  rewrite E, (a4 read_all_x_layout) by assumption. rewrite <- Ha, Hd. reflexivity.
 Qed.
 
 Lemma lf_append_all : forall s f recs boff, lf f recs boff ->
@@ -302,28 +517,15 @@ Lemma lf_torn_shape f recs boff r t : lf f recs boff ->
     (t = length (bytes_of crc i1) + length junk)%nat /\
     exists it rr, append_items B H (append_fuel r) boff r true = i1 ++ it :: rr.
 Proof using H_is_7 B_big B_small crc_bound.
-  intros [its [Hf [Hl [Hw Ha]]]]. unfold append. rewrite append_loop_items. cbn [fst].
-  destruct (a4 append_items_layout (append_fuel r) boff r true (size H its) Hw) as [Hl2 _].
-  set (ir := append_items B H (append_fuel r) boff r true) in *.
-  intros Ht.
-  destruct (a4 take_items ir t) as [i1 [i2 [junk [E1 [E2 [E3 E4]]]]]].
-  destruct E4 as [[-> ->]|[it [rr [s [-> [E5 [E6 E7]]]]]]].
-  { rewrite app_nil_r in E1. rewrite <- E1 in E3. lia. }
-  pose proof Hl2 as Hl2'.
-  rewrite E1 in Hl2. apply (a3 layout_ok_app) in Hl2. destruct Hl2 as [Hl2 Hl3].
-  cbn [layout_ok] in Hl3. destruct Hl3 as [Hok _].
-  exists (its ++ i1), i1, junk.
-  split; [rewrite E2, Hf, app_assoc, <- bytes_of_app; reflexivity|].
-  split; [apply (a3 layout_ok_app); rewrite N.add_0_l; auto|].
-  split; [rewrite (a3 size_app); apply (a4 eof_prefix _ it junk s); assumption|].
-  split.
-  { rewrite asm_app, map_app, Ha.
-    rewrite (asm_strict_prefix (append_fuel r) boff r true _ _ _ i1 it rr);
-      [apply app_nil_r|discriminate|exact E1]. }
-  split; [|exists it, rr; exact E1].
-  apply (f_equal (@length N)) in E2. rewrite firstn_length_le, app_length in E2 by lia. exact E2.
+  intros Hlf Ht.
+  destruct (lf_torn_shape_x f recs boff r t Hlf Ht)
+    as [its' [i1 [junk [E [Hl [He [Ha [Hd [Hlen Hex]]]]]]]]].
+  exists its', i1, junk. auto 10.
 Qed.
 
+(** A cut file the reader reports as read entirely consists of whole fragments and does not end
+    inside a fragmented record (a cut at a fragment boundary inside the torn record is reported
+    as not intact): it is a writer's file again. *)
 Lemma lf_torn_intact f recs boff r t : lf f recs boff ->
   (t < length (fst (append B H crc boff r)))%nat ->
   rx_intact (read_all_x B H crc (f ++ firstn t (fst (append B H crc boff r)))) = true ->
@@ -331,33 +533,30 @@ Lemma lf_torn_intact f recs boff r t : lf f recs boff ->
      (blen (f ++ firstn t (fst (append B H crc boff r))) mod B).
 Proof using H_is_7 B_big B_small crc_bound.
   intros Hlf Ht.
-  destruct (lf_torn_shape f recs boff r t Hlf Ht) as [its' [i1 [junk [E [Hl [He [Ha _]]]]]]].
+  destruct (lf_torn_shape_x f recs boff r t Hlf Ht) as [its' [i1 [junk [E [Hl [He [Ha [Hd _]]]]]]]].
   rewrite E. rewrite (a4 read_all_x_layout) by assumption. cbn [rx_intact]. intros Hi.
-  assert (Hj : junk = []) by (apply blen_0_nil; lia). subst junk. rewrite app_nil_r.
-  exists its'. split; [reflexivity|]. split; [assumption|]. split; [|assumption].
-  rewrite (a4 blen_bytes_of). apply (a3 wst_open).
+  apply andb_prop in Hi. destruct Hi as [Hj Hc].
+  assert (Hj' : junk = []) by (apply blen_0_nil; lia). subst junk. rewrite app_nil_r.
+  exists its'. split; [reflexivity|]. split; [assumption|].
+  split; [rewrite (a4 blen_bytes_of); apply (a3 wst_open)|].
+  split; [assumption|]. split; [assumption|].
+  destruct (fst (fin false [] its')); [discriminate Hc|reflexivity].
 Qed.
 
 Lemma lf_prefix_intact f recs boff n : lf f recs boff ->
   rx_intact (read_all_x B H crc (firstn n f)) = true ->
   exists k, lf (firstn n f) (firstn k recs) (blen (firstn n f) mod B).
 Proof using H_is_7 B_big B_small crc_bound.
-  intros [its [Hf [Hl [Hw Ha]]]]. subst f.
-  destruct (a4 take_items its n) as [i1 [i2 [junk [E1 [E2 [E3 E4]]]]]].
-  rewrite E2. subst its. apply (a3 layout_ok_app) in Hl. destruct Hl as [Hl1 Hl2].
-  rewrite N.add_0_l in Hl2.
-  rewrite (a4 read_all_x_layout).
-  - cbn [rx_intact]. intros Hi.
-    assert (Hj : junk = []) by (apply blen_0_nil; lia). subst junk. rewrite app_nil_r.
-    exists (length (map fst (asm H 0 false [] i1))), i1.
-    split; [reflexivity|]. split; [assumption|].
-    split; [rewrite (a4 blen_bytes_of); apply (a3 wst_open)|].
-    rewrite <- Ha, asm_app, map_app. symmetry. apply firstn_app_exact.
-  - assumption.
-  - destruct E4 as [[-> ->]|[it [r [s [-> [E5 [E6 E7]]]]]]].
-    + apply (LogProofs.eof_nil B H crc H_is_7 B_big B_small).
-    + cbn [layout_ok] in Hl2. destruct Hl2 as [Hok _].
-      apply (a4 eof_prefix _ it junk s); assumption.
+  intros Hlf.
+  destruct (lf_prefix_shape f recs boff n Hlf) as [i1 [junk [E [Hl [He [Ha Hd]]]]]].
+  rewrite E, (a4 read_all_x_layout) by assumption. cbn [rx_intact]. intros Hi.
+  apply andb_prop in Hi. destruct Hi as [Hj Hc].
+  assert (Hj' : junk = []) by (apply blen_0_nil; lia). subst junk. rewrite app_nil_r.
+  exists (length (map fst (asm H 0 false [] i1))), i1.
+  split; [reflexivity|]. split; [assumption|].
+  split; [rewrite (a4 blen_bytes_of); apply (a3 wst_open)|].
+  split; [exact Ha|]. split; [exact Hd|].
+  destruct (fst (fin false [] i1)); [discriminate Hc|reflexivity].
 Qed.
 
 (** a record that fits into the current block is emitted as one fragment without padding *)
@@ -382,23 +581,39 @@ Lemma lf_torn_single_fragment f recs boff r t : lf f recs boff ->
   read_all_x B H crc (f ++ firstn t (fst (append B H crc boff r))) = mkRX recs false 0 false.
 Proof using H_is_7 B_big B_small crc_bound.
   intros Hlf [Ht0 Ht] Hfit.
-  destruct (lf_torn_shape f recs boff r t Hlf Ht)
-    as [its' [i1 [junk [E [Hl [He [Ha [Hlen [it [rr E1]]]]]]]]]].
+  destruct (lf_torn_shape_x f recs boff r t Hlf Ht)
+    as [its' [i1 [junk [E [Hl [He [Ha [Hd [Hlen [it [rr E1]]]]]]]]]]].
   rewrite (append_items_single boff r Hfit) in E1.
   destruct i1 as [|x i1].
   2:{ cbn [app] in E1. injection E1 as _ E1. destruct i1; discriminate. }
   cbn [bytes_of length] in Hlen.
-  rewrite E, (a4 read_all_x_layout) by assumption. rewrite Ha. f_equal.
-  unfold blen. lia.
+  rewrite E, (a4 read_all_x_layout) by assumption. rewrite Ha, Hd. f_equal.
+  destruct (blen junk =? 0) eqn:Ej; [unfold blen in Ej; lia|reflexivity].
 Qed.
+
 End LOGFILE.
+
+(** a record of two fragments cut exactly after its First fragment: the cut file consists of whole
+    fragments, but it ends inside a fragmented record and the reader does not report it as read
+    entirely (appending to it would make the reader drop the First fragment: [rx_skipped = 1]);
+    B = 64 for speed *)
+Example cut_at_fragment_boundary_not_intact :
+  let r1 := repeat 65 80%nat in
+  let f := fst (append 64 7 crc32c 0 r1) in
+  read_all_x 64 7 crc32c f = mkRX [r1] false 0 true /\
+  read_all_x 64 7 crc32c (firstn 64 f) = mkRX [] false 0 false /\
+  read_all_x 64 7 crc32c
+    (firstn 64 f ++ fst (append 64 7 crc32c (blen (firstn 64 f) mod 64) [1; 2; 3]))
+  = mkRX [[1; 2; 3]] false 1 true.
+Proof. vm_compute. repeat split; reflexivity. Qed.
 
 (** * Instance at the parameters of the implementation *)
 
 Definition logfile (f : bytes) (recs : list bytes) (boff : N) : Prop :=
   exists its, f = bytes_of crc32c its /\ layout_ok BLOCK_SIZE_BYTES HEADER_LENGTH_BYTES 0 its /\
     wst BLOCK_SIZE_BYTES (size HEADER_LENGTH_BYTES its) boff /\
-    map fst (asm HEADER_LENGTH_BYTES 0 false [] its) = recs.
+    map fst (asm HEADER_LENGTH_BYTES 0 false [] its) = recs /\
+    drops false its = 0 /\ fst (fin false [] its) = false.
 
 Local Notation inst L :=
   (L BLOCK_SIZE_BYTES HEADER_LENGTH_BYTES crc32c eq_refl eq_refl eq_refl crc32c_bound) (only parsing).
